@@ -58,6 +58,13 @@ func bbAtom(op, side, ax string) *Term {
 }
 
 // exemptions, each confirmed by reading the code
+// bb4Ctors names the constructors BB-4 has a closed-form box for (kept in step with
+// the specs table: ruleBB4 reports a checker problem for a spec that is not listed).
+var bb4Ctors = map[string]bool{"Box3D": true, "Box2D": true, "Sphere3D": true, "Circle2D": true, "Cylinder3D": true, "Line2D": true,
+	"Offset3D": true, "Offset2D": true, "Shell3D": true, "Elongate3D": true, "Elongate2D": true, "Extrude3D": true, "ExtrudeRounded3D": true,
+	"Loft3D": true, "ScaleExtrude3D": true, "TwistExtrude3D": true, "Transform3D": true, "Transform2D": true, "ScaleUniform3D": true,
+	"ScaleUniform2D": true, "Array3D": true, "Array2D": true, "Difference3D": true, "Difference2D": true, "Cut3D": true, "Cut2D": true}
+
 var bb1Exempt = map[string]string{"Gyroid3D": "documented as unbounded: reports a point box and must be intersected"}
 var bb2Exempt = map[string]string{"Screw3D": "the thread profile's Y is a radius (>= 0 by construction of every profile) and X is folded by the pitch sawtooth: only Max.Y matters"}
 var bb3bExempt = map[string]map[string]string{
@@ -79,7 +86,7 @@ var bb3bExempt = map[string]map[string]string{
 }
 
 func checkC01(ctx *Ctx, r *Report, tier string) {
-	r.Explain = "Every SDF constructor of package sdf is discovered, evaluated symbolically and composed with the BoundingBox and Evaluate methods of the object it builds. Decided per constructor: the box is set; it depends two-sidedly on every operand box it uses; it depends on a set of operands that covers the solid and on every extent-relevant parameter of the composed Evaluate; for the closed-form constructors every candidate of the exact extent (interval hull of the affine image, ±offset/round/half-thickness, lattice copies, twisted-profile radius, half heights ...) occurs in the box; the partial-revolution quadrant table is consistent. Containment for the numerically defined shapes (cone, cams, spirals, gears, text, meshes, voxel) and for obj parts is not decided beyond dependence. The unbounded gyroid is covered through Intersect3D's first-operand box; ScaleTwistExtrude3D's box is evaluated against the twisted-then-scaled extent; the loft's mix factor is clamped."
+	r.Explain = "Every SDF constructor of package sdf is discovered, evaluated symbolically and composed with the BoundingBox and Evaluate methods of the object it builds. Decided per constructor: the box is set; it depends two-sidedly on every operand box it uses; it depends on a set of operands that covers the solid and on every extent-relevant parameter of the composed Evaluate; for the closed-form constructors every candidate of the exact extent (interval hull of the affine image, ±offset/round/half-thickness, lattice copies, twisted-profile radius, half heights ...) occurs in the box; the partial-revolution quadrant table is consistent. The spiral's box is evaluated against the outermost of its two ends. Containment for the numerically defined shapes (cone, cams, gears, text, meshes, voxel) and for obj parts is not decided beyond dependence. The unbounded gyroid is covered through Intersect3D's first-operand box; ScaleTwistExtrude3D's box is evaluated against the twisted-then-scaled extent; the loft's mix factor is clamped."
 	r.Trusted = []string{"go/types", "go/ssa", "sdfxlint compositional symbolic evaluator", "exact polynomial identity testing", "operand boxes enclose their operands (induction over expression trees)", "blend functions never add material outside the union of the operands' offsets"}
 	r.Assume = []string{"parameters are valid (constructors' own checks)", "operand boxes are ordered"}
 	var ctors []bbCtor
@@ -93,6 +100,10 @@ func checkC01(ctx *Ctx, r *Report, tier string) {
 			continue
 		}
 		alts, _ := ctorAlts(ctx, fn, "SawTooth", "Clamp")
+		if len(alts) == 0 && bb4Ctors[fn.Name()] {
+			// a closed-form constructor rewritten as a delegation is still that constructor
+			alts, _ = ctorAltsFollow(ctx, fn, "SawTooth", "Clamp")
+		}
 		for _, ca := range alts {
 			bm := methodOf(ctx, ca.typ, "BoundingBox")
 			if bm == nil {
@@ -142,6 +153,7 @@ func checkC01(ctx *Ctx, r *Report, tier string) {
 	ruleBB7(ctx, r)
 	ruleBB8(r, ctors)
 	ruleBB9(r, ctors)
+	ruleBB11(r, ctors)
 	// BB-10: the loft's box (hull of both profile boxes) holds only if the profiles are mixed
 	// with a factor in [0, 1] everywhere (rule shared with C02 M10)
 	checkLoftMix(ctx, r, "BB-10")
@@ -212,6 +224,65 @@ func ruleBB9(r *Report, ctors []bbCtor) {
 		r.check("BB-9", c.key+"|box-covers-the-twisted-then-scaled-profile", c.fn.Pos(), bad == "", fmt.Sprintf("%d parameter sets: |x| <= R·max(1,scale.X), |y| <= R·max(1,scale.Y), |z| <= height/2 must be inside the box;%s", tried, bad))
 	}
 	r.floor("BB-9", 1)
+}
+
+// ruleBB11: the Archimedean spiral r = a·θ + k, θ between start and end (given in either order),
+// thickened by d. |r| is linear in θ between the ends, so the outermost point of the curve is at
+// one of the two ends - which one depends on the signs of a, k and the angles (an inward spiral
+// has it at the start) - and the solid reaches max(|r(start)|, |r(end)|) + d from the origin in
+// every direction. Decided by evaluating the closed form of the box at parameter sets for outward,
+// inward, negative-angle, reversed and through-the-origin spirals.
+func ruleBB11(r *Report, ctors []bbCtor) {
+	for i := range ctors {
+		c := &ctors[i]
+		if c.fn.Name() != "ArcSpiral2D" {
+			continue
+		}
+		names := make([]string, 5)
+		for j := range names {
+			names[j] = paramName(c.fn, j)
+		}
+		sets := [][5]float64{{1, 20, 0.7853981633974483, 50.26548245743669, 1}, {-1, 60, 0, 50, 1}, {1, 5, -30, 2, 0.5},
+			{1, 20, 50.26548245743669, 0.7853981633974483, 1}, {-1, 60, 50, 0, 2}, {2, -10, 0, 20, 1}, {2, -30, 0, 20, 1}, {-0.5, 2, -3, 40, 0.25}}
+		bad, tried := "", 0
+		for _, ps := range sets {
+			env := map[string]float64{}
+			for j, n := range names {
+				env[n] = ps[j]
+			}
+			R := math.Max(math.Abs(ps[0]*ps[2]+ps[1]), math.Abs(ps[0]*ps[3]+ps[1])) + ps[4]
+			okAll := true
+			for _, comp := range []string{"Max.X", "Max.Y", "Min.X", "Min.Y"} {
+				t := c.box[comp]
+				if t == nil {
+					okAll = false
+					continue
+				}
+				g, ok := evalFloat(stripConv(t), env)
+				if !ok {
+					okAll = false
+					continue
+				}
+				w := R
+				if strings.HasPrefix(comp, "Min.") {
+					w = -R
+				}
+				short := (w > 0 && g < w-1e-9*R) || (w < 0 && g > w+1e-9*R)
+				if short && len(bad) < 300 {
+					bad += fmt.Sprintf(" a=%g k=%g start=%g end=%g d=%g: %s = %.4g, the spiral reaches %.4g;", ps[0], ps[1], ps[2], ps[3], ps[4], comp, g, w)
+				}
+			}
+			if okAll {
+				tried++
+			}
+		}
+		if tried == 0 {
+			r.undecided("BB-11", c.key, c.fn.Pos(), "the box is not a closed form that can be evaluated: "+shortKey(c.box["Max.X"].Key(), 200))
+			continue
+		}
+		r.check("BB-11", c.key+"|box-covers-the-outermost-end", c.fn.Pos(), bad == "" && tried == len(sets), fmt.Sprintf("%d of %d parameter sets evaluated: max(|a·start+k|, |a·end+k|) + d must be inside the box on every axis;%s", tried, len(sets), bad))
+	}
+	r.floor("BB-11", 1)
 }
 
 // ruleBB8: the one shape documented as unbounded (its box is a placeholder point, its material is
@@ -762,6 +833,9 @@ func ruleBB4(ctx *Ctx, r *Report, ctors []bbCtor) {
 	}
 	for _, sp := range specs {
 		cs := byName[sp.ctor]
+		if !bb4Ctors[sp.ctor] {
+			r.undecided("BB-4", sp.ctor, 0, "checker table bb4Ctors does not list this specification")
+		}
 		if len(cs) == 0 {
 			r.undecided("BB-4", sp.ctor, 0, "constructor not found or builds nothing")
 			continue
